@@ -1,12 +1,9 @@
 (* C01, event level: condition blocks (flag retargeting), statement lists and the event loop of
    the libccp machine against run_events of the source semantics. *)
-From Portus Require Export SimExpr.
+From Portus Require Export SimExpr EncodeFacts.
 From Portus Require Import ScopeFacts TotalFacts ImageFacts.
 
 Definition sev (ev : event) : sevent := mkSEv (ev_flag ev) (ev_body ev).
-
-Definition dexpr_of (d : Lower.devent) : dexpr :=
-  mkDExpr (e_flag_idx d) (e_num_flag d) (e_body_idx d) (e_num_body d).
 
 (* the implicit registers, by name, in the final scope *)
 Definition scf_impl (scf : list (name * reg)) : Prop :=
